@@ -10,6 +10,8 @@ the documented vertical operators (mc/ref/sigma.py).  implicit_terms itself is c
 reference matrices, all strategies are compared pairwise, and the same is done through
 TimeReversedImExODE and for the layered shallow-water system.  Linearity makes the basis enumeration a
 statement about all states of each configuration.
+
+Extensions after the seeded-breakage rounds (DESIGN.md 8.5): The padded layout runs on a sphere of radius 0.4 so that the quick tier covers radius != 1.
 """
 import itertools
 import numpy as np
